@@ -13,7 +13,7 @@ import samples
 import FlowCal
 
 DUPS = ['copy', 'copy.copy', 'deepcopy', 'view'] + ['pickle%d' % p for p in range(6)]
-OPS = ['slice_ch', 'slice_ev', 'to_rfi', 'to_mef', 'gate']
+OPS = ['slice_ch', 'slice_ev', 'to_rfi', 'to_mef', 'gate', 'reads', 'column', 'row']
 
 
 def apply_op(d, op, rng_vals):
@@ -33,6 +33,22 @@ def apply_op(d, op, rng_vals):
     if op == 'to_mef':
         ch = [i for i in range(D) if (b >> i) & 1] or [D - 1]
         return FlowCal.transform.to_mef(d, channels=ch, sc_list=[(lambda k: (lambda x: 2.0 * x + k))(float(i)) for i in ch], sc_channels=ch)
+    if op == 'reads':
+        # reads that return no array (a single value, a refused index, derived quantities): the sample is as before
+        try:
+            d[0, d.channels[a % D]] if d.shape[0] else None
+            d[d.shape[0] + 5, 0]
+        except Exception:
+            pass
+        try:
+            d.acquisition_time; d.range(a % D); str(d)
+        except Exception:
+            pass
+        return d
+    if op == 'column':
+        return d[:, d.channels[a % D]] if a % 2 else d[:, b % D]          # a one-channel, one-dimensional state
+    if op == 'row':
+        return d[a % d.shape[0]] if d.shape[0] else d                     # a single event, one-dimensional
     if op == 'gate':
         if a % 2:
             n0 = min(a % 3, d.shape[0]); n1 = min(b % 3, d.shape[0] - n0)
